@@ -42,9 +42,13 @@ func ruleC04_1(c *Ctx) {
 			}
 			found = true
 			kc, ok := isResultOf(cc.Value, call, 0, "in_toto.getSignerVerifierFromKey")
-			c.check(ok && resolve(kc.Common().Args[0], kc) == ssa.Value(sg.Params[1]), R, fn, "signer built from the key parameter with getSignerVerifierFromKey", call.Pos(), "same constructor as VerifySignature", "signer is "+short(org(cc.Value)))
+			okSG := ok && resolve(kc.Common().Args[0], kc) == ssa.Value(sg.Params[1])
+			if !okSG && org(cc.Value) == "in_toto.getSignerVerifierFromKey(p1)#0" {
+				okSG = true // handed back unchanged by a transparent helper that was given the key parameter
+			}
+			c.check(okSG, R, fn, "signer built from the key parameter with getSignerVerifierFromKey", call.Pos(), "same constructor as VerifySignature", "signer is "+short(org(cc.Value)))
 			dc, ok := isResultOf(cc.Args[1], call, 0, "(*in_toto.Metablock).GetSignableRepresentation")
-			c.check(ok && dc.Common().Args[0] == ssa.Value(sg.Params[0]), R, fn, "signed bytes = receiver.GetSignableRepresentation()", call.Pos(), "same bytes as VerifySignature verifies", "signed bytes are "+short(org(cc.Args[1])))
+			c.check((ok && dc.Common().Args[0] == ssa.Value(sg.Params[0])) || org(cc.Args[1]) == "(*in_toto.Metablock).GetSignableRepresentation(p0)#0", R, fn, "signed bytes = receiver.GetSignableRepresentation()", call.Pos(), "same bytes as VerifySignature verifies", "signed bytes are "+short(org(cc.Args[1])))
 		}
 		if !found {
 			c.bad(R, fn, "signer.Sign", sg.Pos(), "no dsse Signer.Sign invocation")
@@ -930,11 +934,15 @@ func ruleC12_2(c *Ctx) {
 		return
 	}
 	okAll := false
-	if nf := firstCall(g, "iface:reflect.Type.NumField"); nf != nil {
-		for _, b := range g.Blocks {
-			for _, in := range b.Instrs {
-				if bo, ok := in.(*ssa.BinOp); ok && bo.Op.String() == "<" && resolve(bo.Y, bo) == nf.Value() {
-					okAll = true
+	// in the function itself or in an unexported helper it hands the type to (a helper that collects the tags)
+	fieldFrames := helperClosure(g, 3)
+	for _, fr := range fieldFrames {
+		if nf := firstCall(fr, "iface:reflect.Type.NumField"); nf != nil {
+			for _, b := range fr.Blocks {
+				for _, in := range b.Instrs {
+					if bo, ok := in.(*ssa.BinOp); ok && bo.Op.String() == "<" && resolve(bo.Y, bo) == nf.Value() {
+						okAll = true
+					}
 				}
 			}
 		}
@@ -942,12 +950,7 @@ func ruleC12_2(c *Ctx) {
 	c.check(okAll, R, fname(g), "every struct field is visited", g.Pos(), "loop i < typ.NumField()", "not every field of the type is examined")
 	okOmit := false
 	// in the function itself or in an unexported helper it calls (a tag-parsing helper)
-	frames := []*ssa.Function{g}
-	for _, call := range allCalls(g) {
-		if h := call.Common().StaticCallee(); h != nil && h.Blocks != nil && h.Pkg == g.Pkg && (h.Object() == nil || !h.Object().Exported()) {
-			frames = append(frames, h)
-		}
-	}
+	frames := helperClosure(g, 3)
 	for _, fr := range frames {
 		for _, call := range callsIn(fr, "strings.Contains") {
 			if s, _ := constString(call.Common().Args[1]); s == "omitempty" {
@@ -1546,4 +1549,27 @@ func plainAppendTo(v ssa.Value, at ssa.Instruction, isOld func(ssa.Value) bool, 
 		}
 	}
 	return true, calleeName(call) + " = append(previous list, …)"
+}
+
+// helperClosure: g and the unexported functions of its package it calls statically, up to the given depth.
+func helperClosure(g *ssa.Function, depth int) []*ssa.Function {
+	out := []*ssa.Function{g}
+	seen := map[*ssa.Function]bool{g: true}
+	frontier := []*ssa.Function{g}
+	for d := 0; d < depth; d++ {
+		var next []*ssa.Function
+		for _, f := range frontier {
+			for _, call := range allCalls(f) {
+				h := call.Common().StaticCallee()
+				if h == nil || h.Blocks == nil || h.Pkg != g.Pkg || seen[h] || (h.Object() != nil && h.Object().Exported()) {
+					continue
+				}
+				seen[h] = true
+				out = append(out, h)
+				next = append(next, h)
+			}
+		}
+		frontier = next
+	}
+	return out
 }
